@@ -9,7 +9,7 @@ ROOT = os.path.dirname(os.path.dirname(os.path.abspath(__file__)))
 # in a scratch worktree): everything then lives in a separate work directory and the evidence of /repo is not touched.
 REPO = os.environ.get("VERIF_REPO", "/repo")
 ALT = REPO != "/repo"
-WORK = os.path.join(ROOT, ".work-alt" if ALT else ".work")
+WORK = os.path.join(ROOT, os.environ.get("VERIF_WORK", ".work-alt") if ALT else ".work")
 EVID = os.path.join(WORK, "evidence") if ALT else os.path.join(ROOT, "evidence")
 COQ = os.path.join(ROOT, "coq")
 VRUN = os.path.join(WORK, "vrun")
